@@ -807,7 +807,37 @@ func (e *Exec) route(fn *ssa.Function, fc *FuncContract, from vnode, s *ssa.Basi
 		e.checkPost(st, "unwind", fmt.Sprintf("loop%d", t.unwind.ordinal), "false", nil, e.eng.posString(s.Instrs[0].Pos()))
 		return
 	}
+	// exit assertions of cut loops left by this edge
+	if fc != nil && e.curFn == fn {
+		for _, l := range findLoopsCached(fn) {
+			if l.body[from.b] && !l.body[s] {
+				if lc := fc.Loops[l.ordinal]; lc != nil && lc.Unroll == 0 {
+					for i, cl := range lc.Exits {
+						c := e.invCtx(fn, l, st)
+						c.where = fmt.Sprintf("%s:%d", cl.File, cl.Line)
+						tm, err := c.evalBool(cl.Expr)
+						if err != nil {
+							e.note("CONTRACT-ERROR exit: %v", err)
+							continue
+						}
+						e.check(st, "loop-exit", fmt.Sprintf("loop%d.%d", l.ordinal, i), tm, s.Instrs[0].Pos())
+					}
+				}
+			}
+		}
+	}
 	incoming[t.node] = append(incoming[t.node], vedge{from: from, to: t.node, st: st})
+}
+
+var loopCache = map[*ssa.Function][]*loopInfo{}
+
+func findLoopsCached(fn *ssa.Function) []*loopInfo {
+	if l, ok := loopCache[fn]; ok {
+		return l
+	}
+	l := findLoops(fn)
+	loopCache[fn] = l
+	return l
 }
 
 func (e *Exec) evalPhis(b, pred *ssa.BasicBlock, st *State) {
